@@ -392,7 +392,8 @@ impl<'r> G<'r> {
         let s = self.pos();
         self.use_here(&ci.name, ci.decl, position);
         let name_end = self.pos();
-        let required = ci.targs.iter().take_while(|a| !a.has_default).count();
+        // every argument up to the last one without a default must be passed positionally
+        let required = ci.targs.iter().rposition(|a| !a.has_default).map(|i| i + 1).unwrap_or(0);
         // defaults only trail; choose how many args to pass
         let n = if ci.targs.len() > required { self.rng.range(required, ci.targs.len()) } else { required };
         let brackets = n > 0 || value_form || self.rng.chance(1, 5);
@@ -416,7 +417,8 @@ impl<'r> G<'r> {
         if n > 0 && n == required {
             // drop the last required argument
             let text = &self.files[self.cur].text;
-            let repl = if n == 1 { format!("{}<>", &text[s..name_end]) } else { format!("{}>", &text[s..arg_spans[n - 2].1]) };
+            // drop the last required argument, or all of them (then defaulted arguments in front of it are unbound too)
+            let repl = if n == 1 || self.rng.chance(1, 3) { format!("{}<>", &text[s..name_end]) } else { format!("{}>", &text[s..arg_spans[n - 2].1]) };
             let l = repl.len();
             self.p.fault_sites.push(FaultSite { file: self.cur, span: (s, e), replacement: repl, class: "missing-template-arg", expect: (s, s + l) });
         }
